@@ -998,6 +998,11 @@ func (e *Engine) evalSpecCall(env *specEnv, n *ast.CallExpr) specVal {
 	case "cstring":
 		a := e.evalSpec(env, n.Args[0])
 		return specVal{Value{env.s.selectIn(env.heap, "cgo.cstring", SStr, []*Term{a.v[0]})}, types.Typ[types.String]}
+	case "ptr":
+		// ptr(x, *T): the reference x (e.g. a call-trace slot) seen as a pointer of type *T
+		a := e.evalSpec(env, n.Args[0])
+		t := e.resolveType(env, n.Args[1])
+		return specVal{Value{a.v[0]}, t}
 	case "istokentext":
 		// the string is a text produced by the lexer (token or node text), not computed from one
 		a := e.evalSpec(env, n.Args[0])
